@@ -687,6 +687,39 @@ class Unit:
         return self
 
     # -- rendering ---------------------------------------------------------------
+    def canary_layers(self):
+        """Partition the extracted functions so that no function shares a layer with one it
+        mentions by name (a caller of a function that `ensures false` verifies vacuously)."""
+        ids = [f['id'] for f in self.functions]
+        bodies = {}
+        for s in self.segs:
+            if s.fn and s.kind in ('body', 'ghost'):
+                bodies[s.fn] = bodies.get(s.fn, '') + s.text
+        short = {i: i.split('::')[-1] for i in ids}
+        adj = {i: set() for i in ids}
+        for a in ids:
+            bm = rs.mask(bodies.get(a, ''))
+            for b in ids:
+                if a != b and re.search(r'\b%s\s*(::\s*<[^>]*>\s*)?\(' % re.escape(short[b]), bm):
+                    adj[a].add(b)
+                    adj[b].add(a)
+        # trait-impl methods (operators such as `>` call them implicitly): never share a layer
+        # with inherent functions
+        for a in ids:
+            for b in ids:
+                if a != b and a.startswith('<') != b.startswith('<'):
+                    adj[a].add(b)
+                    adj[b].add(a)
+        layers = []
+        for i in ids:
+            for L in layers:
+                if not (adj[i] & L):
+                    L.add(i)
+                    break
+            else:
+                layers.append({i})
+        return layers
+
     def render(self, canary=False):
         """Returns (text, linemap) where linemap[i] = Seg for 1-based line i+1 start (by offset)."""
         out = []
@@ -701,17 +734,17 @@ class Unit:
             off += len(t)
         text = ''.join(out)
         if canary:
-            text = self._canary(text, spans)
+            text = self._canary(text, spans, canary)
             return text, None
         return text, spans
 
-    def _canary(self, text, spans):
+    def _canary(self, text, spans, layer):
         """Second file: every contracted real function additionally `ensures false`.
         Function-level contract segments precede the function's canary slot; loop-level
         ones follow it, so the first ensures/decreases keyword seen per function is the
         function-level one."""
         res = []
-        done = set()
+        done = set(f['id'] for f in self.functions if f['id'] not in layer)
         for s in self.segs:
             t = s.text
             if s.kind == 'canary-slot':
